@@ -36,6 +36,7 @@ METHODS = {
     'v.get': [([1], {}), ([], {'a': 1, 'b': 2})],
     'a.b.c': [([0], {})],
     'nope': [([], {}), ([1], {})],
+    '_us': [([], {}), ([1], {}), ([], {'a': [1]})],
 }
 
 
@@ -67,7 +68,7 @@ class C07(Check):
         "proxy attribute, hand-built Request + send, notify; batch add/notify, batch(...)(...), batch[...], batch.proxy, hand-built "
         "BatchRequest + batch.send; one batch object sent, grown and sent again} (each only where it can express the plan) and, for the interchangeability clause, through a second "
         "notation with identically seeded id generators; x sync/async client x sync/async dispatcher x id generator {sequential(start, "
-        "step), randint, random(length, chars), uuid} x strict on/off x scripted method behaviours (return any JSON value, raise registered "
+        "step), randint, random(length, chars), uuid} x strict on/off x dispatcher max_batch_size {unset, 1, 2, 3} x scripted method behaviours (return any JSON value, raise registered "
         "typed / unregistered protocol errors, raise exceptions). Oracle: one transport call per send; the wire text is a valid request "
         "document equal to the expected one up to id values (ids present, distinct and of the generator's type for calls; absent for "
         "notifications; positional -> array, named -> object, none -> no params member); outcomes equal the reference server's (which calls "
@@ -108,7 +109,8 @@ class C07(Check):
         s_idgen = st.one_of(s_idgen, s_idgen, st.builds(lambda a: {'kind': 'sequential', 'start': a, 'step': 1}, st.sampled_from([1, 0])))
         return st.builds(
             lambda c, d, s, g, n1, n2, plan, beh, seed, split: {'client': c, 'dispatcher': d, 'strict': s, 'id_gen': g, 'notation': n1, 'other': n2,
-                                                                  'plan': plan, 'behaviours': beh, 'seed': seed, 'split': split, 'batch_strict': seed % 3 != 0},
+                                                                  'plan': plan, 'behaviours': beh, 'seed': seed, 'split': split, 'batch_strict': seed % 3 != 0,
+                                                                  'max_batch_size': [None, None, None, 1, 2, 3][seed % 6]},
             st.sampled_from(['sync', 'async']), st.sampled_from(['sync', 'async']), st.sampled_from([True, True, False]), s_idgen,
             st.sampled_from(SINGLE_NOTATIONS + BATCH_NOTATIONS + BATCH_NOTATIONS), st.sampled_from(SINGLE_NOTATIONS + BATCH_NOTATIONS),
             st.lists(step(), min_size=1, max_size=4), stdreg.behaviours(True), st.integers(0, 1000), st.integers(1, 3),
@@ -123,6 +125,11 @@ class C07(Check):
             {**base, 'client': 'async', 'dispatcher': 'async', 'notation': 'batch-call', 'other': 'batch-add', 'plan': [n('noargs', []), n('noargs', [])]},
             {**base, 'notation': 'batch-getitem', 'other': 'batch-proxy', 'plan': [c('echo', [1, 2]), c('noargs', []), c('ret', [None])]},
             {**base, 'notation': 'proxy', 'other': 'send', 'plan': [c('rpc_err2', []), c('nope', [])]},
+            {**base, 'notation': 'proxy', 'other': 'call', 'plan': [c('_us', [1]), n('_us', [])]},
+            {**base, 'client': 'async', 'dispatcher': 'async', 'notation': 'proxy', 'other': 'batch-proxy', 'plan': [c('_us', [], {'a': [1]})]},
+            {**base, 'max_batch_size': 1, 'notation': 'batch-add', 'other': 'batch-getitem', 'plan': [c('echo', [1]), c('echo', [2])]},
+            {**base, 'client': 'async', 'dispatcher': 'async', 'max_batch_size': 2, 'notation': 'batch-call', 'other': 'batch-proxy', 'plan': [c('echo', [1]), c('ret', []), c('noargs', [])]},
+            {**base, 'client': 'async', 'dispatcher': 'sync', 'max_batch_size': 1, 'notation': 'batch-send', 'other': 'batch-reuse', 'plan': [c('echo', [1]), n('ret', [])]},
             {**base, 'notation': 'batch-send', 'other': 'batch-add', 'batch_strict': False, 'plan': [c('echo', [1]), c('ret', []), n('noargs', [])]},
             # one batch object sent while it holds notifications only, then grown by calls and sent again (and the other way round)
             {**base, 'notation': 'batch-reuse', 'other': 'batch-add', 'split': 1, 'plan': [n('echo', [1]), c('echo', [2]), c('ret', [])]},
@@ -155,6 +162,15 @@ class C07(Check):
         return True
 
     @staticmethod
+    def _mbs(spec: Any, notation: str = '') -> Any:
+        """the dispatcher's max_batch_size, if the case sets one (only for plans that contain a call: the refusal of a batch is then
+        an error response the caller must get as an exception)"""
+        m = spec.get('max_batch_size')
+        if notation == 'batch-reuse':
+            return None     # its first send may consist of notifications only
+        return m if m and any(p['kind'] == 'call' for p in spec['plan']) else None
+
+    @staticmethod
     def _split(spec: Any) -> int:
         return max(1, min(len(spec['plan']) - 1, spec.get('split', 1)))
 
@@ -164,7 +180,8 @@ class C07(Check):
         behaviours = stdreg.effective_behaviours(spec['behaviours'])
         sentinel = object()
         hm.RT.reset(sentinel, behaviours, error_builder=sh.build_error, yield_once=(dkind == 'async'))
-        disp = hm.build_dispatcher(dkind, registry)
+        mbs = self._mbs(spec, notation)
+        disp = hm.build_dispatcher(dkind, registry, **({'max_batch_size': mbs} if mbs else {}))
         random.seed(spec['seed'])
         client = ch.make_client(ckind, ch.loopback_transport(dkind, disp, sentinel), strict=spec['strict'], id_gen_impl=id_gen(spec['id_gen']))
         plan = spec['plan']
@@ -335,6 +352,17 @@ class C07(Check):
                         discs.append(Disc("C07/wire/call-without-id", f"{jg.short(el)} | {where}"))
                     elif gtype is not None and type(el['id']) is not gtype:
                         discs.append(Disc("C07/wire/id-type", f"{el['id']!r} for generator {spec['id_gen']['kind']} | {where}"))
+        # (1b) a batch larger than the dispatcher's max_batch_size is refused as a whole: -32600 reaches the caller as the registered
+        # exception class and nothing runs
+        mbs = self._mbs(spec, notation)
+        if not single and mbs and len(plan) > mbs:
+            got = run['outcomes'][0] if run['outcomes'] else ('value', None)
+            want = he.expected_class(-32600)
+            if got[0] != 'exc' or type(got[1]) is not want:
+                discs.append(Disc("C07/batch/refused-batch-not-raised", f"got {got[1]!r} expected {want.__name__} (batch of {len(plan)} > max_batch_size {mbs}) | {where}"))
+            if run['log']:
+                discs.append(Disc("C07/executions", f"a refused batch executed {jg.short(run['log'])} | {where}"))
+            return discs
         # (2) outcomes
         if len(run['outcomes']) != len(groups):
             discs.append(Disc("C07/outcome-count", f"{len(run['outcomes'])} outcomes for {len(groups)} sends | {where}"))
